@@ -70,7 +70,9 @@ import (
 	"encoding/json"
 	"fmt"
 	"os"
+	"reflect"
 	"testing"
+	"unsafe"
 )
 
 type zzpReplayFile struct {
@@ -132,6 +134,95 @@ func zzExport(tag string, v interface{}) { fmt.Printf("ZZ-EXPORT %s = %v\n", tag
 func zzConcrete(v int) int               { return v }
 func zzUnsupported(msg string)           {}
 func zzIsSymbolic(v int) bool            { return false }
+func zzSchedule(reverse bool)            {}
+
+// hidden mutable state reachable through pointers from root (reflection; also unexported fields)
+func zzpCells(root interface{}) []reflect.Value {
+	var out []reflect.Value
+	seen := map[uintptr]bool{}
+	var walk func(v reflect.Value)
+	var cells func(v reflect.Value)
+	cells = func(v reflect.Value) {
+		switch v.Kind() {
+		case reflect.Bool, reflect.Int, reflect.Int8, reflect.Int16, reflect.Int32, reflect.Int64, reflect.Uint, reflect.Uint8, reflect.Uint16, reflect.Uint32, reflect.Uint64:
+			out = append(out, v)
+		case reflect.Struct:
+			for i := 0; i < v.NumField(); i++ {
+				cells(v.Field(i))
+			}
+		case reflect.Array:
+			for i := 0; i < v.Len(); i++ {
+				cells(v.Index(i))
+			}
+		default:
+			walk(v)
+		}
+	}
+	walk = func(v reflect.Value) {
+		switch v.Kind() {
+		case reflect.Ptr:
+			if !v.IsNil() && !seen[v.Pointer()] {
+				seen[v.Pointer()] = true
+				cells(reflect.NewAt(v.Type().Elem(), unsafe.Pointer(v.Pointer())).Elem())
+			}
+		case reflect.Slice, reflect.Array:
+			for i := 0; i < v.Len(); i++ {
+				walk(v.Index(i))
+			}
+		case reflect.Struct:
+			for i := 0; i < v.NumField(); i++ {
+				walk(v.Field(i))
+			}
+		case reflect.Interface:
+			if !v.IsNil() {
+				walk(v.Elem())
+			}
+		}
+	}
+	walk(reflect.ValueOf(root))
+	return out
+}
+func zzpSet(c reflect.Value, x uint64) {
+	switch c.Kind() {
+	case reflect.Bool:
+		c.SetBool(x != 0)
+	case reflect.Int, reflect.Int8, reflect.Int16, reflect.Int32, reflect.Int64:
+		c.SetInt(int64(x))
+	default:
+		c.SetUint(x)
+	}
+}
+func zzpGet(c reflect.Value) uint64 {
+	switch c.Kind() {
+	case reflect.Bool:
+		if c.Bool() {
+			return 1
+		}
+		return 0
+	case reflect.Int, reflect.Int8, reflect.Int16, reflect.Int32, reflect.Int64:
+		return uint64(c.Int())
+	}
+	return c.Uint()
+}
+func zzHavocHidden(root interface{}, tag string) int {
+	cs := zzpCells(root)
+	for i, c := range cs {
+		zzpSet(c, zzpVec[fmt.Sprintf("%s#%d", tag, i)])
+	}
+	return len(cs)
+}
+func zzSnapshotHidden(root interface{}) []uint64 {
+	var r []uint64
+	for _, c := range zzpCells(root) {
+		r = append(r, zzpGet(c))
+	}
+	return r
+}
+func zzRestoreHidden(root interface{}, vals []uint64) {
+	for i, c := range zzpCells(root) {
+		zzpSet(c, vals[i])
+	}
+}
 
 func TestZZReplay(t *testing.T) {
 	b, err := os.ReadFile(os.Getenv("ZZ_REPLAY"))
